@@ -2,7 +2,7 @@
 
 (A) E-dev: deviations from well-formed seeds (the 14 reference-written calendars of C09 + the repository's example .ics
     files): at EVERY line: delete, duplicate, swap with the next, drop the value, drop the name, re-kind BEGIN/END, replace the
-    value by each of 16 junk values, insert each of 36 hostile lines before it; truncation at EVERY byte; wrapping in 64 nested
+    value by each of 16 junk values, insert each of 45 hostile lines before it; truncation at EVERY byte; wrapping in 64 nested
     unknown components.  Quick: all single deviations; thorough: additionally all pairs (insert hostile x junk value) on the
     generated corpus.
 (B) E-enum token soup: every sequence of <= k lines from a 48-line menu, bare and inside VCALENDAR / VEVENT; every byte string
@@ -37,6 +37,10 @@ HOSTILE = (
     "FREEBUSY:/", "FREEBUSY:20240101T000000Z/", "RDATE;VALUE=PERIOD:x/y", "X-A;P=\"unbalanced:v", ":", ";", "BEGIN:", "END:", "END:VEVENT",
     "BEGIN:VTIMEZONE", "TZID:Europe/Berlin", "TZID:Custom/Dup", "TZOFFSETFROM:+2500", "TZOFFSETTO:0100", "DTSTART;VALUE=DATE:20240101",
     "DTSTART:20240101T000000Z", "ATTACH;ENCODING=BASE64;VALUE=BINARY:!!!", "TRIGGER;VALUE=DATE-TIME:20240101",
+    # parameters that are single-valued by their meaning, given several values (the reader hands back a list)
+    "X-FOO;VALUE=DATE,TEXT:20200101", 'X-FOO;VALUE="A","B":x', "DTSTART;VALUE=DATE,DATE-TIME:20200101", "SUMMARY;LANGUAGE=en,de;ALTREP=a,b:s",
+    "ATTACH;ENCODING=BASE64,8BIT;VALUE=BINARY,URI:AAAA", "TRIGGER;RELATED=START,END:-PT5M", "FREEBUSY;FBTYPE=BUSY,FREE:20240101T000000Z/PT1H",
+    "UNKNOWN-PROP;VALUE=DURATION,PERIOD:PT1H", "X-MOZ-LASTACK;VALUE=DATE-TIME,DATE:20240101T000000Z",
 )
 SUBDAILY = "RRULE:FREQ=SECONDLY"
 SOUP = (
@@ -239,7 +243,7 @@ def run_soup(case):
 
 
 # ------------------------------------------------------------------ oracle (2)
-GOOD = ("SUMMARY:good", "DTSTART;TZID=Europe/Berlin:20240601T100000", "RRULE:FREQ=DAILY;COUNT=2", "ATTENDEE;CN=A:mailto:a@x", "COMMENT:one",
+GOOD = ("X-FOO;VALUE=DATE,TEXT:20200101", "SUMMARY:good", "DTSTART;TZID=Europe/Berlin:20240601T100000", "RRULE:FREQ=DAILY;COUNT=2", "ATTENDEE;CN=A:mailto:a@x", "COMMENT:one",
         "COMMENT:two", "X-GOOD;P=1:v", "CATEGORIES:a,b", "FREEBUSY:19970308T160000Z/PT3H,19970308T200000Z/19970308T210000Z")
 BAD = ("DTSTART:notadate", "RRULE:FREQ=FOO", "GEO:1", "DURATION:P", "X-BAD;P:v", ":novalue", "ATTENDEE;CN=\"x:y", "DTEND:20241301T000000",
        "COMMENT;=x:three", "RDATE:2024",
